@@ -115,8 +115,85 @@ pub fn emit_h_iki5(prop: &str, fam: &str, p: &Parameters, pose: &Pose, j6: f64) 
     l.emit();
 }
 
-pub fn emit_h_scalar(prop: &str, fam: &str) {
-    let _ = (prop, fam);
+/// plain `inverse` and `inverse_continuing` on the same query (superset clause of C04)
+pub fn emit_invcs(prop: &str, fam: &str, ks: &KSpec, pose: &Pose, prev: &Joints) {
+    let k = ks.build();
+    let mut l = Line::new(prop, fam, "invcs");
+    ks.encode(&mut l);
+    l.iso(pose).j6(prev).arrow();
+    match catch(AssertUnwindSafe(|| (k.inverse(pose), k.inverse_continuing(pose, prev)))) {
+        Some((a, b)) => { l.sols(&a).sols(&b); } None => { l.s("panic"); } }
+    l.emit();
+}
+
+/// the same query with and without the constraints (C08): entry 0 inverse, 1 continuing, 2 5dof, 3 continuing 5dof
+pub fn emit_cmp2(prop: &str, fam: &str, ks: &KSpec, entry: usize, pose: &Pose, prev: &Joints, j6: f64) {
+    let with = ks.build();
+    let mut ks0 = ks.clone(); ks0.cons = None;
+    let without = ks0.build();
+    let mut l = Line::new(prop, fam, "cmp2");
+    ks.encode(&mut l);
+    l.n(entry).iso(pose).j6(prev).f(j6).arrow();
+    let call = |k: &std::sync::Arc<dyn Kinematics>| match entry {
+        0 => k.inverse(pose), 1 => k.inverse_continuing(pose, prev), 2 => k.inverse_5dof(pose, j6), _ => k.inverse_continuing_5dof(pose, prev) };
+    match catch(AssertUnwindSafe(|| (call(&with), call(&without)))) {
+        Some((a, b)) => { l.sols(&a).sols(&b); } None => { l.s("panic"); } }
+    l.emit();
+}
+
+/// closure of the answer set (C02): answers for forward(q), and for each answer the number of answers of its own pose
+pub fn emit_invcl(prop: &str, fam: &str, ks: &KSpec, q: &Joints) {
+    let k = ks.build();
+    let mut l = Line::new(prop, fam, "invcl");
+    ks.encode(&mut l);
+    l.j6(q).arrow();
+    match catch(AssertUnwindSafe(|| {
+        let pose = k.forward(q);
+        let sols = k.inverse(&pose);
+        let counts: Vec<usize> = sols.iter().map(|s| k.inverse(&k.forward(s)).len()).collect();
+        (pose, sols, counts)
+    })) {
+        Some((pose, sols, counts)) => { l.iso(&pose).sols(&sols); l.n(counts.len()); for c in counts { l.n(c); } }
+        None => { l.s("panic"); }
+    }
+    l.emit();
+}
+
+/// hook level scalar helpers
+pub fn emit_h_norm(prop: &str, fam: &str, now: f64, prev: f64) {
+    let mut l = Line::new(prop, fam, "h_norm"); l.f(now).f(prev).arrow().f(hk::normalize_near(now, prev)); l.emit();
+}
+pub fn emit_h_close(prop: &str, fam: &str, a: f64, b: f64) {
+    let mut l = Line::new(prop, fam, "h_close"); l.f(a).f(b).arrow().b(hk::are_angles_close(a, b)); l.emit();
+}
+pub fn emit_h_mpi(prop: &str, fam: &str, v: f64, thr: f64) {
+    let mut l = Line::new(prop, fam, "h_mpi"); l.f(v).f(thr).arrow().b(hk::is_close_to_multiple_of_pi(v, thr)); l.emit();
+}
+pub fn emit_h_dist(prop: &str, fam: &str, a: &Joints, b: &Joints) {
+    let mut l = Line::new(prop, fam, "h_dist"); l.j6(a).j6(b).arrow().f(hk::calculate_distance(a, b)); l.emit();
+}
+pub fn emit_h_cmp(prop: &str, fam: &str, a: &Pose, b: &Pose, dt: f64, at: f64) {
+    let mut l = Line::new(prop, fam, "h_cmp"); l.iso(a).iso(b).f(dt).f(at).arrow().b(hk::compare_poses(a, b, dt, at)); l.emit();
+}
+
+/// LinearAxis / Gantry forward (C09)
+pub fn emit_lin(prop: &str, fam: &str, ks: &KSpec, axis: u32, base: &Pose, dist: f64, q: &Joints) {
+    let k = ks.build();
+    let la = rs_opw_kinematics::tool::LinearAxis::verif_new(k, axis, *base);
+    let mut l = Line::new(prop, fam, "lin");
+    ks.encode(&mut l);
+    l.n(axis as usize).iso(base).f(dist).j6(q).arrow();
+    match catch(AssertUnwindSafe(|| la.forward(dist, q))) { Some(p) => { l.iso(&p); } None => { l.s("panic"); } }
+    l.emit();
+}
+pub fn emit_gantry(prop: &str, fam: &str, ks: &KSpec, base: &Pose, tr: &Vector3<f64>, q: &Joints) {
+    let k = ks.build();
+    let g = rs_opw_kinematics::tool::Gantry::verif_new(k, *base);
+    let mut l = Line::new(prop, fam, "gantry");
+    ks.encode(&mut l);
+    l.iso(base).v3(tr).j6(q).arrow();
+    match catch(AssertUnwindSafe(|| g.forward(&Translation3::from(*tr), q))) { Some(p) => { l.iso(&p); } None => { l.s("panic"); } }
+    l.emit();
 }
 
 /// θ-space → joint space for a parameter set with signs ±1
